@@ -62,7 +62,7 @@ ExtraW == << [f |-> "OP_ADD", kinds |-> <<"n", "n">>, args |-> <<Whole(1), Whole
 AllW == Witness \o ExtraW
 NumKinds == {"n", "v"}
 \* (sequences, not sets: TLC cannot compare records of different value kinds)
-TX == << Whole(123), Rat(5, 2), Whole(-7), Bool(TRUE), Bool(FALSE) >>
+TX == << Whole(123), Rat(5, 2), Whole(-7), Bool(TRUE), Bool(FALSE), Whole(1), Whole(0) >>     \* 1 / TRUE and 0 / FALSE: equal as Python values, different as text
 TY == << Whole(45), Bool(FALSE), Txt(<<97>>) >>
 TZ == << Txt(<<49, 50, 51>>), Txt(TRUEcodes), Whole(123) >>
 
@@ -83,7 +83,7 @@ InitCase ==
   \/ \E i \in 1..Len(TX), j \in 1..Len(TY) : case = C("text", "CONCAT", <<TX[i], TY[j]>>, 1, "native")
   \/ \E i \in 1..Len(TX), n \in 1..2 : case = C("text", "LEFT", <<TX[i], Whole(n)>>, 1, "native")
   \/ \E x \in {Whole(2), Whole(23)}, y \in {Whole(123), Whole(3210)} : case = C("text", "FIND", <<x, y>>, 1, "native")
-  \/ \E i \in {1, 4}, j \in 1..Len(TZ) : case = C("text", "EXACT", <<TX[i], TZ[j]>>, 1, "native")
+  \/ \E i \in {1, 4, 6}, j \in 1..Len(TZ) : case = C("text", "EXACT", <<TX[i], TZ[j]>>, 1, "native")
 
 Pending == [t |-> "pending"]
 Init == InitCase /\ res = Pending
